@@ -156,6 +156,78 @@ def random_scripts(rng, n, length, weights, max_chunk=60):
     return out
 
 
+def merge_scripts(rng, n):
+    """Directed: a directory renamed onto an EXISTING directory (the filer merges the two) where children of the two
+    collide by name in every kind combination - file/file, file/dir (with something below the dir), dir/file,
+    dir/dir - followed by lookups and listings. The statements are silent on what a merge does, not on the shape
+    of the tree afterwards."""
+    out = []
+    kinds = [("f", "f"), ("f", "d"), ("d", "f"), ("d", "d")]
+    cid = [40]
+
+    def f(p):
+        cid[0] = 41 + (cid[0] - 40) % 19      # chunk ids 41..59 (the driver's per-execution id space is 1..98)
+        return {"ev": "create", "p": p, "kind": "f", "chunks": [cid[0]], "attr": rng.randint(1, 4), "oexcl": False}
+
+    def d(p):
+        return {"ev": "create", "p": p, "kind": "d", "chunks": [], "attr": 0, "oexcl": False}
+
+    for i in range(n):
+        ks, kd = kinds[i % 4]
+        src, dst = (["a"], ["d"]) if (i // 4) % 2 == 0 else (["d"], ["a"])
+        name = rng.choice(["e", "b"])
+        ops = []
+        for top, k in ((src, ks), (dst, kd)):
+            if k == "f":
+                ops.append(f(top + [name]))
+            else:
+                ops.append(d(top + [name]))
+                if rng.random() < 0.8:
+                    ops.append(f(top + [name, "c"]))
+        if rng.random() < 0.5:
+            ops.append(f(src + ["x"]))
+        if rng.random() < 0.5:
+            ops.append(f(dst + ["y"]))
+        rng.shuffle(ops)
+        # a directory's child must come after the directory itself is implied: creates make ancestors, so any order works
+        ops.append({"ev": "rename", "o": src, "n": dst})
+        ops.append({"ev": "lookup", "p": dst + [name]})
+        ops.append({"ev": "list", "p": dst})
+        ops.append({"ev": "list", "p": dst + [name]})
+        if rng.random() < 0.5:
+            ops.append({"ev": "rename", "o": dst, "n": ["f"]})
+        out.append(ops)
+    return out
+
+
+def linked_subtree_scripts(rng, n):
+    """Directed: a file with names inside AND outside a folder (hard links across directories), then the folder is
+    deleted / renamed / overwritten as a whole, then the names that remain are looked up. What a recursive operation
+    does to data that other names still show, and to the counter of the names that remain."""
+    out = []
+    for i in range(n):
+        inside, outside = (["a", "b", "c"], ["e"]) if i % 2 == 0 else (["a", "d"], ["e"])
+        ops = [{"ev": "create", "p": inside, "kind": "f", "chunks": [41 + i % 10, 52], "attr": rng.randint(1, 4), "oexcl": False},
+               {"ev": "link", "o": inside, "n": outside}]
+        if rng.random() < 0.4:
+            ops.append({"ev": "link", "o": inside, "n": ["a", "b"] if inside == ["a", "d"] else ["a", "d"]})   # a second name inside
+        if rng.random() < 0.3:
+            ops.append({"ev": "create", "p": ["a", "x"], "kind": "f", "chunks": [30], "attr": 1, "oexcl": False})
+        k = i % 4
+        if k in (0, 1):
+            ops.append({"ev": "delete", "p": ["a"], "rec": True, "data": k == 0 or rng.random() < 0.5, "ign": False})
+        elif k == 2:
+            ops.append({"ev": "delete", "p": inside[:-1] if len(inside) > 2 else ["a"], "rec": True, "data": True, "ign": False})
+        else:
+            ops.append({"ev": "rename", "o": ["a"], "n": ["f"]})
+            ops.append({"ev": "delete", "p": ["f"], "rec": True, "data": True, "ign": False})
+        ops.append({"ev": "lookup", "p": outside})
+        if rng.random() < 0.5:
+            ops.append({"ev": "delete", "p": outside, "rec": False, "data": True, "ign": False})
+        out.append(ops)
+    return out
+
+
 def revert_scripts(rng, n, length=7):
     """G4b: change-then-revert inputs.  One file, one or two further names linked to it, then writes
     through randomly chosen names whose values come from a pool of two or three (chunks, attribute)
